@@ -323,11 +323,11 @@ fn check_dict<H: AsRef<[usize]> + SelectUnchecked + SelectZeroUnchecked>(
         // the same through a reference (the traits are implemented for &T)
         let r = &ef;
         let some: Vec<usize> = qs.iter().copied().step_by(7).collect();
-        batch(c, "succ", &some, xs, d, |q| (Succ::succ(r, q), Pred::pred(r, q), IndexedDict::index_of(r, q)), |q, g| {
+        batch(c, "succ+pred+index_of(&ef)", &some, xs, d, |q| (Succ::succ(r, q), Pred::pred(r, q), IndexedDict::index_of(r, q)), |q, g| {
             if pair_ok(xs, g.0, model_succ(xs, q, false)) && pair_ok(xs, g.1, model_pred(xs, q, false)) && index_ok(xs, q, g.2) {
                 Ok(())
             } else {
-                Err(format!("(succ {}, pred {}) via &ef", want_pair(xs, model_succ(xs, q, false)), want_pair(xs, model_pred(xs, q, false))))
+                Err(format!("(succ {}, pred {}, index_of per model)", want_pair(xs, model_succ(xs, q, false)), want_pair(xs, model_pred(xs, q, false))))
             }
         });
     }
